@@ -107,6 +107,9 @@ var resetCmd = &cobra.Command{
 		if err != nil {
 			return fmt.Errorf("fail to get log record: %w", err)
 		}
+		if logRecord.Hash == nil {
+			return fmt.Errorf("fail to reset: '%s' does not name a commit", args[0])
+		}
 
 		// reset HEAD
 		if isSoft || isMixed || isHard {
